@@ -28,6 +28,7 @@ RULE = (
     "Gateway.listen, nothing else); a non-canonical int()-parsable spelling is don't-care on the verdict but never another exception. "
     "Non-trivial = field count != 6, or a boundary/over-range numeric, or a cross-field rule decided; distinct = distinct (version, line)."
     ' Round 5: cases also run with the library logging at DEBUG, with set-up in a foreign context/thread, and with the same line spelled as MQTT topic levels + payload through a real MQTTClient on a fake broker (same reference verdict).'
+    ' Round 6: the MQTT spelling uses 8 topic prefixes (incl. the README default; digits that also occur in ids); a well-formed line rejected on that path is reported.'
 )
 ASSUMPTIONS = [
     "spelling classes: canonical -?(0|[1-9][0-9]*); anything else int() parses is a grey zone (verdict not demanded)",
